@@ -44,6 +44,24 @@ def gen(c):
                     lines.append('isapkey.load scheme=%s obj=%d saved=@sk junk=%d' % (sc, nxt, rng.randrange(256))); live.append(nxt); nxt += 1
             for o in live: lines.append('isapkey.free scheme=%s obj=%d' % (sc, o))
             p.case(lines, cost=cost); c.distinct([(sc, 'hist', h)])
+        # the SAME object re-keyed in place and used again under the SAME nonce: init, init again, load over it
+        k1, k2, k3 = pattern(rng, klen, 'rand'), pattern(rng, klen, 'rand'), pattern(rng, klen, 'rand')
+        n = hx(pattern(rng, 16)); ad = hx(pattern(rng, 3)); m = hx(pattern(rng, 11))
+        e = lambda o: 'isapkey.enc scheme=%s obj=%d n=%s ad=%s in=%s' % (sc, o, n, ad, m)
+        p.case(['isapkey.init scheme=%s obj=1 k=%s' % (sc, hx(k1)), e(1),
+                'isapkey.init scheme=%s obj=1 re=1 k=%s' % (sc, hx(k2)), e(1), 'isapkey.enc scheme=%s obj=1 n=%s ad=%s in=%s save=ct' % (sc, n, ad, m),
+                'isapkey.dec scheme=%s obj=1 n=%s ad=%s in=@ct' % (sc, n, ad),
+                'isapkey.init scheme=%s obj=2 k=%s' % (sc, hx(k3)), 'isapkey.save scheme=%s obj=2 save=s3' % sc,
+                'isapkey.load scheme=%s obj=1 re=1 saved=@s3' % sc, e(1), e(2),
+                'isapkey.free scheme=%s obj=1' % sc, 'isapkey.free scheme=%s obj=2' % sc], cost=7 * w)
+        c.distinct([(sc, 'rekey-in-place')])
+    # C++ objects that were never given a key, or were cleared: the documented all-zero key, for every class
+    for cls in ('isap128', 'isap128a', 'isap80pq', 'siv128', 'siv128a', 'siv80pq'):
+        w = {'isap128': 3.0, 'isap80pq': 3.5}.get(cls, 0.5)
+        p.case(['cpp.new cls=%s obj=1 how=default' % cls, 'cpp.set_nonce obj=1 n=%s' % hx(pattern(rng, 16)), 'cpp.enc obj=1 m=%s ad=%s form=ptr save=ct' % (hx(pattern(rng, 9)), hx(pattern(rng, 2))),
+                'cpp.new cls=%s obj=2 how=key key=%s' % (cls, hx(pattern(rng, 20 if '80pq' in cls else 16, 'rand'))), 'cpp.clear obj=2', 'cpp.set_nonce obj=2 n=%s' % hx(pattern(rng, 16)),
+                'cpp.enc obj=2 m=%s ad=- form=ptr' % hx(pattern(rng, 4)), 'cpp.del obj=1', 'cpp.del obj=2'], cost=3 * w)
+        c.distinct([(cls, 'cpp-zero-key')])
     return p
 
 def run(c):
@@ -62,7 +80,7 @@ def run(c):
         # a few packets and one key history per scheme there
         q = Plan(); seen = {}
         for lines, cost, tag in p.cases:
-            key = (lines[1].split()[0], [t for t in lines[1].split() if t.startswith('scheme=')][0])
+            key = (lines[1].split()[0], ([t for t in lines[1].split() if t.startswith('scheme=') or t.startswith('cls=')] + ['scheme=?'])[0])
             if seen.get(key, 0) < (3 if 'siv' in key[1] or key[1] == 'scheme=isap128a' else 1):
                 seen[key] = seen.get(key, 0) + 1; q.cases.append((lines, cost, tag))
         c.tv(q, 'c32', 'sivisap', max_cost=12.0)
